@@ -363,6 +363,10 @@ var iosSpellings = [][3]string{
 	{"permit tcp any host 10.9.9.1 range ftp-data ftp", "permit tcp any host 10.9.9.1 range 20 21", "permit tcp any host 10.9.9.1 range 20 22"},
 	{"permit gre any host 10.9.9.1", "permit 47 any host 10.9.9.1", "permit 48 any host 10.9.9.1"},
 	{"permit icmp any host 10.9.9.1 echo", "permit icmp any host 10.9.9.1 8", "permit icmp any host 10.9.9.1 0"},
+	// type 11: ttl-exceeded is code 0, reassembly-timeout code 1, time-exceeded every code
+	{"permit icmp any host 10.9.9.1 ttl-exceeded", "permit icmp any host 10.9.9.1 11 0", "permit icmp any host 10.9.9.1 11"},
+	{"permit icmp any host 10.9.9.1 reassembly-timeout", "permit icmp any host 10.9.9.1 11 1", "permit icmp any host 10.9.9.1 11"},
+	{"permit icmp any host 10.9.9.1 time-exceeded", "permit icmp any host 10.9.9.1 11", "permit icmp any host 10.9.9.1 11 1"},
 }
 
 func iosSpellSpace() *space {
